@@ -30,6 +30,7 @@ const (
 	HkHash         = byte('H')
 	HkInteger      = byte('i')
 	HkRegexp       = byte('r')
+	HkString       = byte('s')
 	HkTimespan     = byte('D')
 	HkTimestamp    = byte('T')
 	HkType         = byte('t')
@@ -552,6 +553,24 @@ func registerMapping(t px.Type, r reflect.Type) {
 	resolvableTypesLock.Lock()
 	resolvableMappings = append(resolvableMappings, Mapping{t, r})
 	resolvableTypesLock.Unlock()
+}
+
+// appendKeyBytes writes the given bytes preceded by their count (eight bytes, big endian). The
+// segment is self-delimiting, so raw bytes can neither run into what follows them in a key nor be
+// mistaken for the encoding of a value of another kind.
+func appendKeyBytes(b *bytes.Buffer, s string) {
+	n := uint64(len(s))
+	b.Write([]byte{byte(n >> 56), byte(n >> 48), byte(n >> 40), byte(n >> 32), byte(n >> 24), byte(n >> 16), byte(n >> 8), byte(n)})
+	b.WriteString(s)
+}
+
+// stringKey returns the hash key of the string s
+func stringKey(s string) px.HashKey {
+	b := bytes.NewBuffer(make([]byte, 0, len(s)+10))
+	b.WriteByte(1)
+	b.WriteByte(HkString)
+	appendKeyBytes(b, s)
+	return px.HashKey(b.String())
 }
 
 func appendKey(b *bytes.Buffer, v px.Value) {
